@@ -141,7 +141,7 @@ def prop_module(prop):
 def theorems_in(prop):
     path = os.path.join(LEAN, *prop_module(prop)[0].split('.')) + '.lean'
     src = strip_lean_comments(open(path).read())
-    return re.findall(r'^theorem\s+([A-Za-z_][A-Za-z0-9_\'.]*)', src, re.M)
+    return re.findall(r'^theorem\s+([^\s({\[:]+)', src, re.M)
 
 
 def audit(prop, workdir, props=None):
